@@ -57,10 +57,10 @@ use yrs::{
     Subscription, Text, TextRef, Transact, TransactionMut, Update, WeakPrelim, WeakRef, XmlTextRef,
 };
 
-pub const TARGETS: &str = "quote | quote_seq | quote_map | quote_obs";
+pub const TARGETS: &str = "quote | quote_seq | quote_map | quote_obs | quote_strict";
 
 pub fn is_target(target: &str) -> bool {
-    matches!(target, "quote" | "quote_seq" | "quote_map" | "quote_obs")
+    matches!(target, "quote" | "quote_seq" | "quote_map" | "quote_obs" | "quote_strict")
 }
 
 /// Is this witness line one of ours?
@@ -411,6 +411,8 @@ pub struct QCase {
     pub gc: bool,
     /// Check the observer clause too.
     pub observe: bool,
+    /// Report the disagreements the unchanged tree is known to show (see KNOWN below) as well.
+    pub strict: bool,
     pub steps: Vec<QStep>,
 }
 
@@ -437,6 +439,7 @@ impl QCase {
                     ("offset_kind", J::str("utf16")),
                     ("gc", J::Bool(self.gc)),
                     ("observers", J::Bool(self.observe)),
+                    ("tolerate_known", J::Bool(!self.strict)),
                     ("clients", J::Arr(self.clients.iter().map(|c| J::Num(*c as i64)).collect())),
                     ("steps", J::Arr(self.steps.iter().map(|s| s.json()).collect())),
                 ]),
@@ -508,6 +511,7 @@ impl QCase {
             clients,
             gc: flag("gc", true)?,
             observe: flag("observers", false)?,
+            strict: !flag("tolerate_known", true)?,
             steps,
         })
     }
@@ -853,6 +857,38 @@ fn inside(tr: &Tracked, visible: &[u32], order: Option<&[u32]>, strictly: bool) 
     Some(out)
 }
 
+/// KNOWN: what the unchanged tree (2026-09-26) shows for quotations of a TEXT read through the two
+/// string renderings (`WeakRef<TextRef>::get_string` = `LinkSource::to_string`,
+/// `WeakRef<XmlTextRef>::get_string` = `XmlTextRef::get_string_fragment`). `unquote` on arrays shows
+/// none of this. `search quote_strict` reports these; the other targets do not dereference a text
+/// quotation of exactly these two classes through the string renderings (counted in
+/// `known_disagreements_skipped`), everything else about them is still checked.
+///
+/// K-a, EXCLUDED start. When the stored quotation is integrated and the start anchor is the last
+/// element of its block (always on a replica that RECEIVES the quotation: the sender has split the
+/// block there; locally when the anchor ends a block, e.g. "ab" typed, "c" put in front, then
+/// `(Excluded(0), ..)`), `LinkSource::materialize` starts its block iterator BEHIND the anchor
+/// (`quote_start.get_item` returns `item.right` for `Assoc::After`), `RangeIter::begin` never meets
+/// the start id, nothing is split or marked as linked, the sender's split is squashed again at the
+/// end of the transaction; `to_string` relies on the split and shows the excluded element and, when
+/// the end lies inside a block, everything up to the end of the text. Minimal: replica 1 types "ab",
+/// stores `quote((Excluded(0), Unbounded))`, delivery to replica 2: `get_string` there is "ab", not
+/// "b"; "abcd", `(Excluded(0), Included(1))`: "abcd" on replica 2, not "b". The XML rendering
+/// PANICS locally: "ab" typed, "c" inserted at 0 ("cab"), `quote((Excluded(0), Included(1)))` stored:
+/// `WeakRef<XmlTextRef>::get_string` -> "end byte index 3 is out of bounds of `ab`".
+///
+/// K-b, a range that holds NO element when it is stored (`a..a`, `(Excluded(a), Included(a))`,
+/// `(Excluded(a), Excluded(a))`, and the open interval between neighbours `(Excluded(a),
+/// Excluded(a+1))`, which is a proper range: later insertions between the two belong to it): no
+/// block is split, `to_string` never meets its end condition and returns everything from the block
+/// of the anchor to the end of the text, the XML rendering everything behind the anchor. Minimal:
+/// "ab", `quote((Excluded(0), Excluded(1)))` stored: `get_string` is "ab", XML "b", not "".
+fn known_text_class(tr: &Tracked) -> bool {
+    let excluded_start = matches!(tr.start, Some(Edge::Elem { incl: false, .. }));
+    let empty_when_stored = inside(tr, &tr.quoted_on, None, false).map(|v| v.is_empty()).unwrap_or(false);
+    excluded_start || empty_when_stored
+}
+
 /// What a passing run tells about the final state.
 #[derive(Clone, Debug, Default)]
 pub struct QInfo {
@@ -861,13 +897,16 @@ pub struct QInfo {
     live: bool,
     /// Replicas that hold the quotations.
     holds: [bool; 2],
-    /// Map links: which keys are present per replica (bit k), number of links stored.
+    /// Map links: which keys are present per replica (bit k), number of links stored, which of
+    /// them (bit k) each replica holds.
     present: [u8; 2],
     links: usize,
+    held: [u32; 2],
     pub probe_gaps: u32,
     /// Quotations returned for an index that does not exist (only dereferenced, nothing asserted).
     pub wild: u32,
     pub quotations: u32,
+    pub tolerated: u32,
 }
 
 struct World<'a> {
@@ -881,6 +920,8 @@ struct World<'a> {
     /// Visible content after the previous step.
     last: [Vec<u32>; 2],
     probe_gaps: u32,
+    /// Disagreements of the KNOWN kinds that were passed over.
+    tolerated: u32,
 }
 
 impl<'a> World<'a> {
@@ -932,6 +973,7 @@ impl<'a> World<'a> {
             quoted: false,
             last: [Vec::new(), Vec::new()],
             probe_gaps: 0,
+            tolerated: 0,
         })
     }
 
@@ -1355,8 +1397,12 @@ impl<'a> World<'a> {
                         ))
                     }
                 };
-                let got = link.deref(&txn);
                 let tr = &self.tracked[k];
+                if kind == Kind::Text && !self.case.strict && known_text_class(tr) {
+                    self.tolerated += 1;
+                    continue;
+                }
+                let got = link.deref(&txn);
                 if tr.wild() {
                     continue; // only: no panic
                 }
@@ -1365,6 +1411,21 @@ impl<'a> World<'a> {
                     None => continue,
                 };
                 for (name, have) in got {
+                    if have != want && std::env::var_os("VX_QUOTE_COLLECT").is_some() {
+                        // debugging aid: list every disagreement on stderr and go on
+                        eprintln!(
+                            "{}\t{}\tquoted_on={}\tvisible={}\twant={}\thave={}\treplica={}\tsteps={}",
+                            name,
+                            range_rust(&tr.range),
+                            elems_json(kind, &tr.quoted_on),
+                            elems_json(kind, &contents[r]),
+                            elems_json(kind, &want),
+                            elems_json(kind, &have),
+                            r + 1,
+                            J::Arr(self.case.steps.iter().map(|s| s.json()).collect())
+                        );
+                        continue;
+                    }
                     if have != want {
                         return Err(fail(
                             "a quotation does not dereference to the visible elements between its boundary elements",
@@ -1518,6 +1579,7 @@ fn execute_seq(case: &QCase, close: bool) -> Result<QInfo, (QCase, Failure)> {
         let mut info = QInfo {
             len: [w.last[0].len() as u32, w.last[1].len() as u32],
             probe_gaps: w.probe_gaps,
+            tolerated: w.tolerated,
             ..QInfo::default()
         };
         for tr in w.tracked.iter() {
@@ -1946,7 +2008,12 @@ fn execute_map(case: &QCase, close: bool) -> Result<QInfo, (QCase, Failure)> {
                     info.present[r] |= 1 << k;
                 }
             }
-            info.holds[r] = w.links.iter().enumerate().any(|(k, l)| l.ok && w.reps[r].known.contains(&k) && !w.reps[r].unlinked.contains(&k));
+            for (k, l) in w.links.iter().enumerate() {
+                if l.ok && w.reps[r].known.contains(&k) && !w.reps[r].unlinked.contains(&k) {
+                    info.held[r] |= 1 << k;
+                }
+            }
+            info.holds[r] = info.held[r] != 0;
         }
         info.links = w.links.len();
         info.live = info.holds[0] || info.holds[1];
@@ -1986,6 +2053,7 @@ struct QSpace {
     probe_gaps: AtomicU64,
     wild: AtomicU64,
     quotations: AtomicU64,
+    tolerated: AtomicU64,
 }
 
 /// (edits before the quote step, edits after it, has a quote step, has a deletion of quotations)
@@ -2057,8 +2125,10 @@ impl QSpace {
                 }
             }
             for replica in 0..2 {
-                // in step with each other: replica 1 quotes the same content
-                if replica == 1 && !n[0] && !n[1] {
+                // replica 2 quotes only when it holds something replica 1 lacks: otherwise it is in step
+                // with replica 1, or behind it - and then the edits it has not seen commute with the
+                // quote step, the history is enumerated with them AFTER the quote step
+                if replica == 1 && !n[1] {
                     continue;
                 }
                 if self.family {
@@ -2172,7 +2242,7 @@ impl QSpace {
             }
             if info.holds[replica] {
                 for k in 0..info.links {
-                    if !deleted.contains(&k) {
+                    if !deleted.contains(&k) && info.held[replica] & (1 << k) != 0 {
                         out.push(extend(QStep::Unlink {
                             replica,
                             which: Which::List(vec![k]),
@@ -2203,6 +2273,7 @@ impl Space for QSpace {
                     self.probe_gaps.fetch_add(info.probe_gaps as u64, Ordering::Relaxed);
                     self.wild.fetch_add(info.wild as u64, Ordering::Relaxed);
                     self.quotations.fetch_add(info.quotations as u64, Ordering::Relaxed);
+                    self.tolerated.fetch_add(info.tolerated as u64, Ordering::Relaxed);
                 }
                 Ok(info)
             }
@@ -2259,24 +2330,42 @@ fn configs(target: &str, universe: u32) -> Vec<Config> {
         }
     };
     if target != "quote_map" {
-        // iterative deepening: the shallow histories of every combination first
-        let deep = u.saturating_sub(3).max(1); // universe 6: 3 edits
-        let shallow = u.saturating_sub(4).max(1); // universe 6: 2 edits
-        let depths: Vec<usize> = if deep > 1 { vec![1, deep] } else { vec![1] };
-        for d in depths {
-            let sh = shallow.min(d);
-            seq(&mut out, "one_range", Kind::Array, Host::Map, [1, 2], true, false, 2, d);
-            seq(&mut out, "one_range", Kind::Text, Host::Array, [1, 2], true, false, 2, d);
-            if d == 1 || sh > 1 {
-                seq(&mut out, "one_range", Kind::Array, Host::Array, [2, 1], true, false, 2, sh);
-                seq(&mut out, "one_range", Kind::Text, Host::Map, [2, 1], false, false, 2, sh);
+        use Host::{Array as HA, Map as HM};
+        use Kind::{Array as KA, Text as KT};
+        // iterative deepening: every combination with one edit first, then deeper ones
+        // (edits before the quote step, edits per history); the table is sized by measurement:
+        // universe 6 about 45 s with 8 jobs on a busy machine
+        for (kind, host, clients, gc) in [(KA, HM, [1, 2], true), (KT, HA, [1, 2], true), (KA, HA, [2, 1], true), (KT, HM, [2, 1], false)] {
+            seq(&mut out, "one_range", kind, host, clients, gc, false, 1, 1);
+        }
+        for (kind, host, clients, gc) in [(KA, HM, [1, 2], true), (KT, HM, [1, 2], true), (KA, HA, [2, 1], false), (KT, HA, [2, 1], true)] {
+            seq(&mut out, "all_ranges", kind, host, clients, gc, true, 1, 1);
+        }
+        if u >= 5 {
+            let d = if u >= 6 { 3 } else { 2 };
+            seq(&mut out, "one_range", KA, HM, [1, 2], true, false, 2, d);
+            if u >= 7 {
+                seq(&mut out, "one_range", KT, HA, [1, 2], true, false, 2, 3);
+            } else {
+                seq(&mut out, "one_range", KT, HA, [1, 2], true, false, 2, 2);
+                if u >= 6 {
+                    seq(&mut out, "one_range", KT, HA, [1, 2], true, false, 1, 3);
+                }
             }
-            seq(&mut out, "all_ranges", Kind::Array, Host::Map, [1, 2], true, true, 2, d);
-            seq(&mut out, "all_ranges", Kind::Text, Host::Map, [1, 2], true, true, 2, d);
-            if d == 1 || sh > 1 {
-                seq(&mut out, "all_ranges", Kind::Array, Host::Array, [2, 1], false, true, 2, sh);
-                seq(&mut out, "all_ranges", Kind::Text, Host::Array, [2, 1], true, true, 2, sh);
-            }
+            seq(&mut out, "one_range", KA, HA, [2, 1], true, false, 2, 2);
+            seq(&mut out, "one_range", KT, HM, [2, 1], false, false, 2, 2);
+            seq(&mut out, "all_ranges", KA, HM, [1, 2], true, true, 2, d);
+            seq(&mut out, "all_ranges", KT, HM, [1, 2], true, true, 2, d);
+            seq(&mut out, "all_ranges", KA, HA, [2, 1], false, true, 2, 2);
+            seq(&mut out, "all_ranges", KT, HA, [2, 1], true, true, 2, 2);
+        }
+        if u >= 7 {
+            seq(&mut out, "all_ranges", KA, HM, [1, 2], true, true, 3, 3);
+            seq(&mut out, "all_ranges", KT, HM, [1, 2], true, true, 3, 3);
+            seq(&mut out, "all_ranges", KA, HM, [2, 1], true, true, 2, 4);
+        }
+        if u >= 8 {
+            seq(&mut out, "all_ranges", KT, HM, [2, 1], true, true, 2, 4);
         }
     }
     if target != "quote_seq" {
@@ -2311,7 +2400,7 @@ pub fn cmd_search(target: &str, universe: u32, jobs: usize, deadline: Option<Ins
     let observe = target == "quote_obs" || OBSERVERS_IN_MAIN_TARGETS;
     let mut res = Ok(());
     let mut per_stage: Vec<(&'static str, u64)> = Vec::new();
-    let (mut gaps, mut wild, mut quotations) = (0u64, 0u64, 0u64);
+    let (mut gaps, mut wild, mut quotations, mut tolerated) = (0u64, 0u64, 0u64, 0u64);
     for c in configs(target, universe) {
         let space = QSpace {
             family: c.family,
@@ -2320,6 +2409,7 @@ pub fn cmd_search(target: &str, universe: u32, jobs: usize, deadline: Option<Ins
             probe_gaps: AtomicU64::new(0),
             wild: AtomicU64::new(0),
             quotations: AtomicU64::new(0),
+            tolerated: AtomicU64::new(0),
         };
         let root = QCase {
             target: target.to_string(),
@@ -2328,10 +2418,26 @@ pub fn cmd_search(target: &str, universe: u32, jobs: usize, deadline: Option<Ins
             clients: c.clients,
             gc: c.gc,
             observe,
+            strict: target == "quote_strict",
             steps: Vec::new(),
         };
         let before = h.cases;
+        let started = Instant::now();
         res = bfs(&mut h, &space, vec![root]);
+        if std::env::var_os("VX_QUOTE_TIMES").is_some() {
+            eprintln!(
+                "{:?} in {:?} {:?} gc={} {} build<={} edits<={}: {} cases, {} ms",
+                c.kind,
+                c.host,
+                c.clients,
+                c.gc,
+                c.stage,
+                c.max_build,
+                c.total,
+                h.cases - before,
+                started.elapsed().as_millis()
+            );
+        }
         match per_stage.iter_mut().find(|(n, _)| *n == c.stage) {
             Some((_, n)) => *n += h.cases - before,
             None => per_stage.push((c.stage, h.cases - before)),
@@ -2339,6 +2445,7 @@ pub fn cmd_search(target: &str, universe: u32, jobs: usize, deadline: Option<Ins
         gaps += space.probe_gaps.load(Ordering::Relaxed);
         wild += space.wild.load(Ordering::Relaxed);
         quotations += space.quotations.load(Ordering::Relaxed);
+        tolerated += space.tolerated.load(Ordering::Relaxed);
         if res.is_err() {
             break;
         }
@@ -2354,6 +2461,8 @@ pub fn cmd_search(target: &str, universe: u32, jobs: usize, deadline: Option<Ins
         ("probe_gaps", J::Num(gaps as i64)),
         // quotations returned for an index that does not exist (dereferenced, nothing asserted)
         ("quotations_without_boundary_element", J::Num(wild as i64)),
+        // dereferences of text quotations of the classes listed under KNOWN that were not made (`search quote_strict` makes them)
+        ("known_disagreements_skipped", J::Num(tolerated as i64)),
     ];
     finish(target, universe, res, &h, extra)
 }
